@@ -13,6 +13,8 @@ CHECK = {
         {"name": "rtmpticks", "pkg": "rtmp", "run": "^TestVerif_C07_Rtmp$", "instrument": _INSTR, "checkptr": False, "env": {"VERIF_TICKS": "1"}, "timeout": {"quick": 1200, "thorough": 10800}},
         {"name": "ws", "pkg": "websocket", "run": "^TestVerif_C07_Ws$", "race": True, "timeout": {"quick": 1200, "thorough": 10800}},
         {"name": "wsticks", "pkg": "websocket", "run": "^TestVerif_C07_Ws$", "instrument": _INSTR, "checkptr": False, "env": {"VERIF_TICKS": "1"}, "timeout": {"quick": 1200, "thorough": 10800}},
+        {"name": "jose", "pkg": "verifharness/prop/c07", "run": "^TestVerif_C07_Jose$", "race": True, "timeout": {"quick": 1200, "thorough": 10800}},
+        {"name": "joseticks", "pkg": "verifharness/prop/c07", "run": "^TestVerif_C07_Jose$", "instrument": _INSTR, "checkptr": False, "env": {"VERIF_TICKS": "1"}, "timeout": {"quick": 1200, "thorough": 10800}},
         {"name": "enums", "pkg": "verifharness/prop/c07", "run": "^TestVerif_C07_Enums$", "timeout": {"quick": 600, "thorough": 1800}},
     ],
     "assumptions": [
